@@ -250,10 +250,30 @@ impl Sim {
                 40..=69 => {
                     self.poll(rec);
                 }
-                70..=84 => {
+                70..=81 => {
                     if !self.w.held.is_empty() {
                         let k = rng.below(self.w.held.len());
                         self.respond(rec, rng, k);
+                    }
+                }
+                82..=84 => {
+                    // several answers at once through `enqueue_responses`
+                    if self.w.held.len() >= 2 {
+                        let n = rng.range(2, self.w.held.len().min(4));
+                        let ks: Vec<usize> = (0..n).collect();
+                        let mut bodies = vec![];
+                        for k in &ks {
+                            let t = self.w.held[*k].tag.clone();
+                            if let Some(i) = self.w.held[*k].client {
+                                if i < self.plans.len() {
+                                    self.plans[i].answered.push(t.clone());
+                                }
+                            }
+                            bodies.push(format!("{}:", t).into_bytes());
+                        }
+                        self.w.respond_many(rec, ks, bodies);
+                    } else if !self.w.held.is_empty() {
+                        self.respond(rec, rng, 0);
                     }
                 }
                 _ => {
